@@ -8,7 +8,7 @@ package PKGNAME
 // writers are serialised, so exactly the first of several If-None-Match:*
 // writers to an absent key can succeed.
 func VerifC07Conditional() {
-	verifMaxOp = 7
+	verifMaxOp, verifExtraOps = 7, []int{8, 9}
 	verifVersionsRun(verifParam("steps", 3), false, "C02-latest-promotion-by-created-at", "")
-	verifMaxOp = 4
+	verifMaxOp, verifExtraOps = 4, []int{8}
 }
